@@ -19,6 +19,11 @@ use std::collections::BTreeMap;
 // toy towers (constants computed by a Python script: β^((p^i-1)/d) tables, see the report)
 // ---------------------------------------------------------------------------------------------
 
+macro_rules! f2 {
+    ($a:expr, $b:expr) => {
+        Fp2::new(MontFp!($a), MontFp!($b))
+    };
+}
 macro_rules! toy_fp2 {
     ($name:ident, $fp:ty, $nr:expr, $c1:expr) => {
         pub struct $name;
@@ -54,6 +59,40 @@ toy_fp3!(C3_7a, FDT7, "2", ["4", "2"], ["2", "4"], 1, 85, "6");
 toy_fp3!(C3_7b, FDT7, "3", ["2", "4"], ["4", "2"], 1, 85, "6");
 toy_fp3!(C3_13, FDT13, "2", ["3", "9"], ["9", "3"], 2, 274, "8");
 
+// deliberately defective configurations (kind suffix `~`): conformance of the panic sites / guards only
+toy_fp3!(R3_7cube, FDT7, "1", ["1", "1"], ["1", "1"], 1, 85, "6"); // NONRESIDUE = 1 is a cube: F_7[X]/(X^3-1) is not a field
+pub struct R3_7short; // valid β = 2, Frobenius tables one entry short (slice index panics)
+impl Fp3Config for R3_7short {
+    type Fp = FDT7;
+    const NONRESIDUE: FDT7 = MontFp!("2");
+    const TWO_ADICITY: u32 = 1;
+    const TRACE_MINUS_ONE_DIV_TWO: &'static [u64] = &[85];
+    const QUADRATIC_NONRESIDUE_TO_T: Fp3<Self> = Fp3::new(MontFp!("6"), MontFp!("0"), MontFp!("0"));
+    const FROBENIUS_COEFF_FP3_C1: &'static [FDT7] = &[MontFp!("1"), MontFp!("4")];
+    const FROBENIUS_COEFF_FP3_C2: &'static [FDT7] = &[MontFp!("1"), MontFp!("2")];
+}
+// characteristic 3: the guard of the Granger–Scott squaring is false (there is no sextic tower over F_9)
+#[derive(Clone, Copy)]
+pub struct R6b_3;
+impl fp6_3over2::Fp6Config for R6b_3 {
+    type Fp2Config = Q2_3;
+    const NONRESIDUE: Fp2<Q2_3> = f2!("1", "1");
+    const FROBENIUS_COEFF_FP6_C1: &'static [Fp2<Q2_3>] =
+        &[f2!("1", "0"), f2!("1", "0"), f2!("1", "0"), f2!("1", "0"), f2!("1", "0"), f2!("1", "0")];
+    const FROBENIUS_COEFF_FP6_C2: &'static [Fp2<Q2_3>] =
+        &[f2!("1", "0"), f2!("1", "0"), f2!("1", "0"), f2!("1", "0"), f2!("1", "0"), f2!("1", "0")];
+}
+#[derive(Clone, Copy)]
+pub struct R12_3;
+impl Fp12Config for R12_3 {
+    type Fp6Config = R6b_3;
+    const NONRESIDUE: fp6_3over2::Fp6<R6b_3> = fp6_3over2::Fp6::new(f2!("0", "0"), f2!("1", "0"), f2!("0", "0"));
+    const FROBENIUS_COEFF_FP12_C1: &'static [Fp2<Q2_3>] = &[
+        f2!("1", "0"), f2!("1", "0"), f2!("1", "0"), f2!("1", "0"), f2!("1", "0"), f2!("1", "0"),
+        f2!("1", "0"), f2!("1", "0"), f2!("1", "0"), f2!("1", "0"), f2!("1", "0"), f2!("1", "0"),
+    ];
+}
+
 pub struct Q4_13;
 impl Fp4Config for Q4_13 {
     type Fp2Config = Q2_13;
@@ -82,11 +121,6 @@ impl fp6_2over3::Fp6Config for S6a_13 {
         &[MontFp!("1"), MontFp!("4"), MontFp!("3"), MontFp!("12"), MontFp!("9"), MontFp!("10")];
 }
 
-macro_rules! f2 {
-    ($a:expr, $b:expr) => {
-        Fp2::new(MontFp!($a), MontFp!($b))
-    };
-}
 #[derive(Clone, Copy)]
 pub struct S6b_7;
 impl fp6_3over2::Fp6Config for S6b_7 {
@@ -417,11 +451,11 @@ fn run_fp2<P: Fp2Config>(id: &str, hooks: &str, plan: &Plan, rng: &mut Rng, out:
     }
 }
 
-fn run_fp3<P: Fp3Config>(id: &str, plan: &Plan, rng: &mut Rng, out: &mut Out) {
+fn run_fp3<P: Fp3Config>(id: &str, ring: bool, plan: &Plan, rng: &mut Rng, out: &mut Out) {
     type E<P> = Fp3<P>;
-    cfg_line::<E<P>>(id, "fp3", &hdr_fp3::<P>(), out);
+    cfg_line::<E<P>>(id, if ring { "fp3~" } else { "fp3" }, &hdr_fp3::<P>(), out);
     let (xs, ex) = operands::<E<P>>(rng, plan.tiny_limit, plan.nrand);
-    let cyc = cyc_members(&src_for_cyc(&xs, ex, rng, plan.max_cyc), &[(1, true)], plan.max_cyc.min(60));
+    let cyc = if ring { vec![] } else { cyc_members(&src_for_cyc(&xs, ex, rng, plan.max_cyc), &[(1, true)], plan.max_cyc.min(60)) };
     common(id, &xs, ex, &cyc, plan, rng, out);
     let edges = prime_edges::<P::Fp>();
     for (i, x) in xs.iter().enumerate() {
@@ -509,14 +543,14 @@ fn run_fp6b<P: fp6_3over2::Fp6Config>(id: &str, h2: &str, h6: &str, plan: &Plan,
     }
 }
 
-fn run_fp12<P: Fp12Config>(id: &str, h2: &str, h6: &str, plan: &Plan, rng: &mut Rng, out: &mut Out) {
+fn run_fp12<P: Fp12Config>(id: &str, ring: bool, h2: &str, h6: &str, plan: &Plan, rng: &mut Rng, out: &mut Out) {
     type E<P> = Fp12<P>;
     type F2<P> = Fp2<<<P as Fp12Config>::Fp6Config as fp6_3over2::Fp6Config>::Fp2Config>;
     let consts = format!("{} {} {}", hdr_fp6b::<P::Fp6Config>(h2, h6), es(&P::NONRESIDUE), list(P::FROBENIUS_COEFF_FP12_C1));
-    cfg_line::<E<P>>(id, "fp12", &consts, out);
+    cfg_line::<E<P>>(id, if ring { "fp12~" } else { "fp12" }, &consts, out);
     let (xs, ex) = operands::<E<P>>(rng, plan.tiny_limit, plan.nrand);
     // easy part of the final exponentiation: f^((p^6-1)(p^2+1))
-    let cyc = cyc_members(&src_for_cyc(&xs, ex, rng, plan.max_cyc), &[(6, true), (2, false)], plan.max_cyc);
+    let cyc = if ring { vec![] } else { cyc_members(&src_for_cyc(&xs, ex, rng, plan.max_cyc), &[(6, true), (2, false)], plan.max_cyc) };
     common(id, &xs, ex, &cyc, plan, rng, out);
     let edges = prime_edges::<<E<P> as Field>::BasePrimeField>();
     let pool2 = structured::<F2<P>>(rng, 4);
@@ -568,17 +602,22 @@ pub fn run(rng: &mut Rng, thorough: bool, out: &mut Out, only: &Option<String>) 
     if want(only, "t2_5") { run_fp2::<Q2_5>("t2_5", "def", &tiny, rng, out); }
     if want(only, "t2_13") { run_fp2::<Q2_13>("t2_13", "def", &tiny, rng, out); }
     if want(only, "t2_m61") { run_fp2::<Q2_M61>("t2_m61", "def", &small, rng, out); }
-    if want(only, "t3_7a") { run_fp3::<C3_7a>("t3_7a", &tiny, rng, out); }
-    if want(only, "t3_7b") { run_fp3::<C3_7b>("t3_7b", &tiny, rng, out); }
-    if want(only, "t3_13") { run_fp3::<C3_13>("t3_13", &small, rng, out); }
+    if want(only, "t3_7a") { run_fp3::<C3_7a>("t3_7a", false, &tiny, rng, out); }
+    if want(only, "t3_7b") { run_fp3::<C3_7b>("t3_7b", false, &tiny, rng, out); }
+    if want(only, "t3_13") { run_fp3::<C3_13>("t3_13", false, &small, rng, out); }
     if want(only, "t4_5") { run_fp4::<Q4_5>("t4_5", "def", &tiny, rng, out); }
     if want(only, "t4_13") { run_fp4::<Q4_13>("t4_13", "def", &small, rng, out); }
     if want(only, "t6a_7") { run_fp6a::<S6a_7>("t6a_7", &small, rng, out); }
     if want(only, "t6a_13") { run_fp6a::<S6a_13>("t6a_13", &small, rng, out); }
     if want(only, "t6b_7") { run_fp6b::<S6b_7>("t6b_7", "def", "def", &small, rng, out); }
     if want(only, "t6b_13") { run_fp6b::<S6b_13>("t6b_13", "def", "def", &small, rng, out); }
-    if want(only, "t12_7") { run_fp12::<D12_7>("t12_7", "def", "def", &toy12, rng, out); }
-    if want(only, "t12_13") { run_fp12::<D12_13>("t12_13", "def", "def", &toy12, rng, out); }
+    if want(only, "t12_7") { run_fp12::<D12_7>("t12_7", false, "def", "def", &toy12, rng, out); }
+    if want(only, "t12_13") { run_fp12::<D12_13>("t12_13", false, "def", "def", &toy12, rng, out); }
+
+    // defective configurations: panic sites, the `else` branch of the Granger–Scott guard
+    if want(only, "r3_7cube") { run_fp3::<R3_7cube>("r3_7cube", true, &tiny, rng, out); }
+    if want(only, "r3_7short") { run_fp3::<R3_7short>("r3_7short", true, &tiny, rng, out); }
+    if want(only, "r12_3") { run_fp12::<R12_3>("r12_3", true, "def", "def", &toy12, rng, out); }
 
     // shipped towers (ark_test_curves)
     use ark_test_curves::{bls12_381, mnt6_753};
@@ -591,11 +630,11 @@ pub fn run(rng: &mut Rng, thorough: bool, out: &mut Out, only: &Option<String>) 
         frobx::<bls12_381::Fq6>("bls_fq6", if t { 6 } else { 2 }, rng, out);
     }
     if want(only, "bls_fq12") {
-        run_fp12::<bls12_381::Fq12Config>("bls_fq12", "neg", "bls", &big, rng, out);
+        run_fp12::<bls12_381::Fq12Config>("bls_fq12", false, "neg", "bls", &big, rng, out);
         frobx::<bls12_381::Fq12>("bls_fq12", if t { 4 } else { 2 }, rng, out);
     }
     if want(only, "mnt6_fq3") {
-        run_fp3::<mnt6_753::Fq3Config>("mnt6_fq3", &big, rng, out);
+        run_fp3::<mnt6_753::Fq3Config>("mnt6_fq3", false, &big, rng, out);
         frobx::<mnt6_753::Fq3>("mnt6_fq3", if t { 6 } else { 2 }, rng, out);
     }
 }
